@@ -529,3 +529,147 @@ func ruleTerminalErrorIsStatus(c *Ctx, rule string) {
 		}
 	}
 }
+
+// ruleForwardEscapableByStream (C11.6): the connection-wide read loop's hand-off into one stream's queue has, among its
+// select cases, the Done() of that stream's own handler context (the registry entry's ctx). Connection-wide contexts
+// alone do not help: when the handler has returned without draining its queue, nothing else would ever wake the loop.
+func ruleForwardEscapableByStream(c *Ctx, rule string) {
+	p := c.p
+	f := p.MustFn("goat.handler.processStreamingRpc")
+	n := 0
+	for _, op := range p.Blocks().ops[f] {
+		isForward := false
+		for _, ch := range op.Chans {
+			if p.chanDesc(ch) == "ch" {
+				isForward = true
+			}
+		}
+		if !isForward {
+			continue
+		}
+		n++
+		ok := false
+		var seen []string
+		for _, cx := range op.EscapeCtx {
+			fld := p.ctxFieldOf(cx)
+			seen = append(seen, fld+"("+p.lpath(cx)+")")
+			if fld == "goat.streamHandler.ctx" {
+				ok = true
+			}
+		}
+		c.check(rule, "processStreamingRpc:forward-escapable-by-stream-context", op.Kind == "select" && ok,
+			fmt.Sprintf("the hand-off into a stream's queue must select on that stream's handler context; escape contexts here: %v — a handler that returned with its queue full would otherwise block the connection's read loop for ever", seen), p.ipos(op.Instr))
+	}
+	c.floor(rule, "forwarding hand-offs in processStreamingRpc", n, 1)
+	// and that context is done at the latest when the handler returns: runStream defers the entry's cancel
+	rs := p.MustFn("goat.handler.runStream")
+	okDefer := false
+	allInstrs(rs, func(i ssa.Instruction) {
+		if d, ok := i.(*ssa.Defer); ok && p.callbackFieldDeep(d.Call.Value) == "goat.streamHandler.cancel" {
+			okDefer = true
+		}
+	})
+	c.check(rule, "runStream:defers-stream-cancel", okDefer, "runStream defers the stream's cancel, so the stream context is done once the handler has returned", p.pos(rs.Pos()))
+	// the ctx stored in the entry is the one that cancel cancels (results 0 and 1 of one constructor call)
+	pair := false
+	for _, s := range p.FieldStores(fieldKey{"goat.streamHandler", "ctx"}) {
+		if ex, ok := s.Val.(*ssa.Extract); ok && ex.Index == 0 {
+			for _, s2 := range p.FieldStores(fieldKey{"goat.streamHandler", "cancel"}) {
+				if ex2, ok := s2.Val.(*ssa.Extract); ok && ex2.Index == 1 && ex2.Tuple == ex.Tuple {
+					pair = true
+				}
+			}
+		}
+	}
+	c.check(rule, "streamHandler:ctx-pairs-with-cancel", pair, "the entry's ctx and cancel are results 0 and 1 of the same context constructor call")
+}
+
+// ctxFieldOf: the goat-owned struct field a context value was loaded from ("" if none), looking through local copies
+// of registry entries.
+func (p *Prog) ctxFieldOf(v ssa.Value) string {
+	switch x := v.(type) {
+	case *ssa.UnOp:
+		if fa, ok := x.X.(*ssa.FieldAddr); ok {
+			if fk, ok := ownerKey(fa); ok {
+				return fk.String()
+			}
+		}
+	case *ssa.Field:
+		if fk, ok := ownerKey(x); ok {
+			return fk.String()
+		}
+	}
+	return ""
+}
+
+// ruleLongHeldLockAcquisitions (C11.5): a registry lock under which a blocking primitive may execute can be held for
+// an unbounded time; every place that waits for such a lock is itself a potential wedge point. The call sites of the
+// functions that acquire it are frozen (each is a recorded consequence of the open finding); a new one is reported.
+var longHeldAllowed = map[string]int{
+	// rm.mutex is long-held while finding F13a (send under the lock in handleResponse) is open
+	"client.RpcMultiplexer.closeError←client.RpcMultiplexer.Close":                          1,
+	"client.RpcMultiplexer.closeError←client.NewRpcMultiplexer$go:":                         1,
+	"client.RpcMultiplexer.handleResponse←client.RpcMultiplexer.readLoop":                   1,
+	"client.RpcMultiplexer.registerHandler←client.RpcMultiplexer.CallUnaryMethod":           1,
+	"client.RpcMultiplexer.registerHandler←client.RpcMultiplexer.NewStreamReadWriter":       1,
+	"client.RpcMultiplexer.unregisterHandler←client.RpcMultiplexer.CallUnaryMethod":         1,
+	"client.RpcMultiplexer.unregisterHandler←client.RpcMultiplexer.NewStreamReadWriter$1":   1,
+	"client.RpcMultiplexer.readErrorIfDone←client.RpcMultiplexer.CallUnaryMethod":           1,
+	"client.RpcMultiplexer.readErrorIfDone←client.RpcMultiplexer.NewStreamReadWriter":       1,
+	"client.RpcMultiplexer.readErrorIfDone←client.RpcMultiplexer.NewStreamReadWriter$reader": 1,
+	"client.RpcMultiplexer.readErrorIfDone←client.RpcMultiplexer.NewStreamReadWriter$writer": 1,
+}
+
+func ruleLongHeldLockAcquisitions(c *Ctx, rule string) {
+	p := c.p
+	le := p.Locks()
+	be := p.Blocks()
+	long := map[string]string{}
+	for _, f := range p.Funcs {
+		for _, op := range be.ops[f] {
+			if ok, _ := exceptionDoneSignal(c, op); ok {
+				continue
+			}
+			for k := range le.May(op.Instr) {
+				if _, reg := registryLocks[k]; reg {
+					long[k] = p.cname(f) + ":" + p.opDesc(op)
+				}
+			}
+		}
+	}
+	c.inv("long_held_registry_locks", long)
+	if len(long) == 0 {
+		c.check(rule, "no-long-held-registry-lock", true, "no blocking primitive executes under a registry lock: waiting for one is bounded by short critical sections")
+		return
+	}
+	// functions that acquire a long-held lock
+	acq := map[*ssa.Function]string{}
+	for _, a := range le.acquires {
+		k, _ := lockOp(commonOf(a))
+		if _, isLong := long[k]; isLong {
+			acq[a.Parent()] = k
+		}
+	}
+	counts := map[string]int{}
+	pos := map[string][]string{}
+	for f, k := range acq {
+		for _, cs := range p.Callers(f) {
+			key := p.fnKey(f) + "←" + p.cname(cs.caller)
+			counts[key]++
+			pos[key] = append(pos[key], p.ipos(cs.instr))
+			_ = k
+		}
+	}
+	for _, key := range sortedKeys(counts) {
+		want, known := longHeldAllowed[key]
+		ok := known && counts[key] <= want
+		lk := ""
+		for f, k := range acq {
+			if strings.HasPrefix(key, p.fnKey(f)+"←") {
+				lk = k
+			}
+		}
+		c.check(rule, "waits-for-long-held-lock:"+key, ok,
+			fmt.Sprintf("%d call site(s) wait for %s, which may be held for an unbounded time (%s executes under it); the recorded, unavoidable sites are frozen (%d allowed here) — an additional wait is a new way to wedge the connection", counts[key], lk, long[lk], want), pos[key]...)
+	}
+}
